@@ -209,10 +209,11 @@ NCcoordck(NC *handle, NC_var *vp, const long *coords)
         } /* !SD_NOFILL  */
 
         vp->numrecs = MAX(vp->numrecs, (*ip + 1)); /* if NOFILL  */
-        if ((*ip + 1) > (long)(handle->numrecs)) {
+        /* this variable has grown (even if the file-wide maximum has not): its record count is
+           part of what is brought up to date when the file is closed */
+        handle->flags |= NC_NDIRTY;
+        if ((*ip + 1) > (long)(handle->numrecs))
             handle->numrecs = *ip + 1;
-            handle->flags |= NC_NDIRTY;
-        }
 
         return TRUE;
     }
